@@ -10,7 +10,7 @@ that fires its children (a list of EV), or {"call": EV, "kids": [EV, ...]}: ``yi
 """
 from hypothesis import strategies as st
 
-from circuits import BaseComponent, Event
+from circuits import BaseComponent, Event, sleep
 from circuits.core.handlers import handler as H
 from vlib import driver
 from vlib.runner import Prop, Result
@@ -70,6 +70,7 @@ def _ev_strategy(depth, root=False):
         return st.fixed_dictionaries({
             'kind': st.sampled_from(['plain', 'plain', 'plain', 'raise', 'stop', 'gen', 'gen', 'genraise']),
             'fire': children,
+            'sleep': st.sampled_from([False, False, True]),
             'steps': st.lists(st.one_of(children, children, st.fixed_dictionaries({'call': child, 'kids': children})), max_size=2)
             if child is not None else st.lists(children, max_size=2),
         })
@@ -174,10 +175,12 @@ class C05(Prop):
                         c = make(s['call'])
                         log.append(('fired', s['call']['id'], 'call'))
                         yield self.call(c)
+                        if h.get('sleep'):
+                            yield sleep(0)       # pauses, e.g. for rate limiting, are further steps of the handler
                         log.append(('step', es['id'], slot, i))
                         fire_children(self, s['kids'], 'step')
                     else:
-                        yield None
+                        yield (sleep(0) if h.get('sleep') else None)
                         log.append(('step', es['id'], slot, i))
                         fire_children(self, s, 'step')
                 log.append(('hend', es['id'], slot))
